@@ -555,6 +555,7 @@ static Plan gen_C11(uint64_t seed, Rng &r) {
             if (r.chance(0.08)) { o.a[5] = 2; }
             o.a[6] = fill; o.a[7] = pos;
             o.blob = {(uint8_t)r.below(p.nodes.size())};
+            if (r.chance(0.07)) { o.a[5] = 3; o.blob.push_back((uint8_t)r.below(5)); } // own address straddling two entries: not an acknowledgement
             if (r.chance(0.05)) o.a[5] = 0;
             if (r.chance(0.05)) { o.f.push_back({F_PAD, (int64_t)n.mtu + r.pickl({0, 0, -1, -2, -3}), 0x11}); o.f.push_back({F_COUNT, r.pickl({0xFFFF, (int64_t)(n.mtu - 36) / 6 + 1, (int64_t)(n.mtu - 36) / 6}), 0}); o.f.push_back({F_TAILMAC, r.range(1, 6), 0}); }
             p.ops.push_back(o);
@@ -776,6 +777,7 @@ static Plan gen_C17(uint64_t seed, Rng &r) {
     Mix m;
     m.raw = 1; m.stray = 2; m.stall = 0; m.flood = 2; m.fetch = 2;
     int nops = (int)r.range(2, 50);
+    bool faulty = r.chance(0.4);
     for (int i = 0; i < nops; i++) {
         Plan one = p;
         int node = (int)r.below(p.nodes.size());
@@ -799,6 +801,10 @@ static Plan gen_C17(uint64_t seed, Rng &r) {
         }
         if (o.kind == OP_FLOOD && r.chance(0.15)) { o.a[0] = r.range(1000, 1100); o.a[1] = 20000 + 2000 * node; } // enough observations on one interface to reach any process-wide limit
         if (i < 2 && r.chance(0.5)) o.dt = 0; // first frames back to back
+        if (faulty) { // faults hit one interface's frame: network faults, or a platform fault while that frame is handled; the other interfaces must not notice
+            add_net_faults(r, o, 0.12, p.nodes[node].mtu);
+            if (r.chance(0.06)) { Fault f; f.kind = r.chance(0.6) ? F_ALLOCFAIL : (r.chance(0.5) ? F_SENDFAIL : F_GETFAIL); f.a = f.kind == F_ALLOCFAIL ? r.range(1, 3) : (f.kind == F_SENDFAIL ? r.pickl({1, 2, 3, 0xFFFF}) : (int64_t)(r.next() & G_ALL)); f.b = 1; o.f.push_back(f); }
+        }
         o.only = node; // every frame of this op reaches `node` only
         p.ops.push_back(o);
     }
